@@ -28,7 +28,7 @@ def plain(v, depth=0):
 
 def selections(L, P):
     rows = [["s", None, None, None], ["i", 0], ["i", -1], ["s", 1, None, None], ["s", None, None, 2], ["s", None, None, -1], ["s", 0, 0, None], ["a", [L - 1, 0]], ["a", [0, 0]], ["m", [k % 2 == 0 for k in range(L)]]]
-    cols = [["s", None, None, None], ["i", 0], ["i", -1], ["s", None, None, -1], ["a", [P - 1, 0]], ["m", [k % 2 == 1 or P == 1 for k in range(P)]], ["s", 1, 2, None], ["a", [P - 1]], ["s", None, None, P]]
+    cols = [["s", None, None, None], ["i", 0], ["i", -1], ["s", None, None, -1], ["a", [P - 1, 0]], ["m", [k % 2 == 1 or P == 1 for k in range(P)]], ["s", 1, 2, None], ["a", [P - 1]], ["s", None, None, P], ["s", 0, 0, None], ["s", None, 0, None], ["s", P, None, None], ["s", 1, 1, None]]
     vec = [["vec", [0, L - 1], [0, P - 1]], ["vec", [L - 1], [0]], ["vec", [0, 0, L - 1], [P - 1, 0, 0]]]
     return [["isel", r, c] for r in rows for c in cols] + vec
 
